@@ -106,6 +106,11 @@ type Req struct {
 	BodyGen *BodyGen `json:"body_gen,omitempty"`
 	// > 0: the body reader fails after this many bytes (a connection that breaks / a read deadline that passes)
 	FailAfter int `json:"fail_after,omitempty"`
+	// > 0: the body is followed by this many bytes 'a' that are produced while the server reads (never held by the harness):
+	// a plain body far beyond the payload limit
+	Fill int `json:"fill,omitempty"`
+	// > 0: the payload limit (pbPool.limit) the router runs with for this case instead of --decoded-limit
+	Limit int `json:"limit,omitempty"`
 }
 
 type ZSpan struct {
@@ -729,13 +734,34 @@ func genFrame(r *rand.Rand, id int) Case {
 		class += "+read-error"
 	}
 	c.Req.BodyGen = &BodyGen{Kind: "frame"}
+	// the framing loops are about the 16 MiB token limit of the scanner: the payload limit of the router stays out of the way
+	c.Req.Limit = 64 << 20
 	c.Class = "frame/" + d.dec + "/" + class
 	return c
+}
+
+// routes that buffer the whole body (io.ReadAll in withUnsnappyRequest, the OTLP PreRequest, withBufferedBody)
+var fillRoutes = []limitRoute{
+	{"prom", "/api/v1/prom/remote/write", "application/x-protobuf"},
+	{"otlp", "/v1/traces", "application/x-protobuf"},
+	{"elastic", "/logs/_doc", "application/json"},
+	{"lokiproto", "/loki/api/v1/push", "application/x-protobuf"},
 }
 
 func genLimit(r *rand.Rand, id int) Case {
 	rt := limitRoutes[r.Intn(len(limitRoutes))]
 	L := decodedLimit
+	if r.Intn(10) == 0 {
+		// a plain body far beyond the payload limit: the server must stop reading at the limit
+		ft := fillRoutes[r.Intn(len(fillRoutes))]
+		n := (48 + r.Intn(150)) << 20
+		c := Case{ID: id, Stream: "limit", L: &LimDesc{CE: "", Decoded: n}}
+		c.Req.Path = ft.path
+		c.Req.Headers = []KV{{"Content-Type", ft.ct}}
+		c.Req.Fill = n
+		c.Class = "limit/" + ft.name + "/plain-fill/over"
+		return c
+	}
 	sizes := []int{L - 4096, L - 1, L, L + 1, L + 2, L + 4096, 2 * L, 4*L + 3, 8 * L, 1024 + r.Intn(L), L + 1 + r.Intn(3*L)}
 	d := sizes[r.Intn(len(sizes))]
 	ce := pick(r, "", "gzip", "gzip", "snappy", "snappy")
@@ -1445,6 +1471,9 @@ func serve(router *mux.Router, c *Case, body []byte, deadline time.Duration) (ou
 	if k := c.Req.FailAfter; k > 0 && k <= len(body) {
 		rd = io.MultiReader(bytes.NewReader(body[:k]), failingReader{})
 	}
+	if c.Req.Fill > 0 {
+		rd = io.MultiReader(rd, io.LimitReader(fillReader{}, int64(c.Req.Fill)))
+	}
 	req := httptest.NewRequest("POST", u, rd)
 	for _, kv := range c.Req.Headers {
 		if kv[1] != "" || kv[0] != "Content-Type" {
@@ -1472,6 +1501,15 @@ func serve(router *mux.Router, c *Case, body []byte, deadline time.Duration) (ou
 	case <-time.After(deadline):
 		return "hang", 0, "no response within " + deadline.String() + "; goroutines of the repository still running:\n" + repoStacks()
 	}
+}
+
+type fillReader struct{}
+
+func (fillReader) Read(p []byte) (int, error) {
+	for i := range p {
+		p[i] = 'a'
+	}
+	return len(p), nil
 }
 
 type failingReader struct{}
@@ -1558,16 +1596,25 @@ func worker(casesPath string, from int, deadline time.Duration) {
 		id := c.ID
 		emit(result{Begin: &id, ID: id})
 		body := c.body(r)
+		limit := decodedLimit
+		if c.Req.Limit > 0 {
+			limit = c.Req.Limit
+		}
+		helpers.SetGlobalLimit(2 * limit)
 		runtime.ReadMemStats(&ms)
 		a0 := ms.TotalAlloc
 		rows0 := rowsSnapshot()
 		t0 := time.Now()
 		outcome, status, detail := serve(router, c, body, deadline)
 		rows1 := rowsSnapshot()
-		o := &Obs{Outcome: outcome, Status: status, Ms: time.Since(t0).Milliseconds(), Detail: detail, BodyLen: len(body), Limit: decodedLimit}
+		o := &Obs{Outcome: outcome, Status: status, Ms: time.Since(t0).Milliseconds(), Detail: detail, BodyLen: len(body) + c.Req.Fill, Limit: limit}
 		runtime.ReadMemStats(&ms)
 		o.AllocKB = int64((ms.TotalAlloc - a0) / 1024)
-		o.DecodedLen = decodedLen(c.header("Content-Encoding"), body, decodedLimit+2)
+		o.DecodedLen = decodedLen(c.header("Content-Encoding"), body, limit+2)
+		if c.header("Content-Encoding") == "" {
+			o.DecodedLen += c.Req.Fill
+		}
+		helpers.SetGlobalLimit(2 * decodedLimit) // the canary and the census run under the default limit
 		if c.Stream == "frame" {
 			o.Rows = map[string]int{}
 			for k, v := range rows1 {
